@@ -128,3 +128,12 @@ def df_group(inp, W):
             d1=di.count(), d2=lambda d: di.count(d.v))
         return {"out": out}
     raise ValueError(mode)
+
+# ---------------------------------------------------------------------------- C05 joins
+
+@op
+def df_join(inp, W):
+    a, b = inp["a"], inp["b"]
+    by = [x if isinstance(x, str) else tuple(x) for x in inp["by"]]
+    out = getattr(a, inp["kind"])(b, *by)
+    return {"out": out, "a": a, "b": b, "alias": _frame_alias(W, out, a, b)}
